@@ -520,6 +520,18 @@ where
         _ => write!(text, "{:#}", dot),
     };
     ck!(r.is_ok(), "dot-fmt-error", "{what}: formatting failed");
+    if !c.attrs {
+        // the shorter constructors are the same wrapper with empty attribute getters
+        let mut t2 = String::new();
+        let other = if cfg.is_empty() { Dot::new(g) } else { Dot::with_config(g, &cfg) };
+        let _ = match c.fmt % 4 {
+            0 => write!(t2, "{}", other),
+            1 => write!(t2, "{:?}", other),
+            2 => write!(t2, "{:#?}", other),
+            _ => write!(t2, "{:#}", other),
+        };
+        ck!(t2 == text, "dot-constructors-differ", "{what}: Dot::new / Dot::with_config print {t2:?}, with_attr_getters with empty getters prints {text:?}");
+    }
     let shown = |w: &Cw| -> String {
         match c.fmt % 4 {
             0 => format!("{}", w),
